@@ -233,7 +233,7 @@ def generate(seed: int, run: int, tier: str) -> dict:
 
 
 def canonical_job(modname: str, env: dict, tests: bool = False) -> dict:
-    return _job(0, f"canon:{modname}", env, [{"op": "observe", "m": modname, "tests": tests}])
+    return _job(0, f"canon:{modname}", env, [{"op": "observe", "m": modname, "tests": tests, "conditioning": True}])
 
 
 def _whole_catalogue_job(seed, tag, env, order_seed, n_observe, tests=False) -> dict:
@@ -359,7 +359,7 @@ def child_run(job: dict) -> dict:
             m = op["m"]
             counters = dict(ids)
             dep_first = m in sys.modules
-            o = observe.observe(m, with_calls=op.get("calls", True), prepared=prepared.get(m) if op.get("use_prepared") else None)
+            o = observe.observe(m, with_calls=op.get("calls", True), prepared=prepared.get(m) if op.get("use_prepared") else None, conditioning=bool(op.get("conditioning")))
             _note_first_imports(before_mods, first_import_counter, counters, faults, perturbed_before)
             if op.get("tests") and o.get("import") == "ok":
                 o["tests"] = observe.run_repo_tests(m, core.REPO)
@@ -492,6 +492,9 @@ def compare(modname: str, canon: dict, got: dict) -> tuple[list[dict], list[str]
             a, b = cc[f], gc.get(f)
             if a[0] != "ret":
                 continue  # the statement speaks about returned values only
+            if "ill-conditioned" in a:
+                inc.append("call-ill-conditioned")
+                continue  # its float value is rounding noise at these arguments (see observe.call_functions)
             if b is None:
                 v("call", f"{modname}.{f}", "function disappeared")
             elif b[0] == "timeout":
@@ -532,8 +535,9 @@ def prepare(pool, tier, seed, stats):
     n_eq = sum(len(o.get("equations", {})) for o in table.values())
     n_num = sum(1 for o in table.values() for e in o.get("equations", {}).values() if e[0] == "num")
     n_calls = sum(1 for o in table.values() for c in (o.get("calls") or {}).values() if c[0] == "ret")
+    ill = sorted(f"{m}.{f}" for m, o in table.items() for f, c in (o.get("calls") or {}).items() if "ill-conditioned" in c)
     n_funcs = sum(len(o.get("calls") or {}) for o in table.values())
-    ctx["canon_stats"] = {"modules": len(mods), "import_ok": n_ok, "equations": n_eq, "equations_numeric": n_num, "functions": n_funcs, "functions_returning": n_calls}
+    ctx["canon_stats"] = {"modules": len(mods), "import_ok": n_ok, "equations": n_eq, "equations_numeric": n_num, "functions": n_funcs, "functions_returning": n_calls, "ill_conditioned_at_chosen_arguments": ill}
     core.log(f"  {ctx['canon_stats']}")
     return ctx
 
